@@ -41,7 +41,7 @@ def _c08_on_timeout(seed, idx, tier):
 
 
 reg("C08", "C08", _faulted("C08"), "exploration", {"quick": 3000, "thorough": 50000},
-    on_timeout=_c08_on_timeout,
+    on_timeout=_c08_on_timeout, case_timeout=600,
     rule=RULE_WORLD + "; in addition, for one statement in 16 every reply-fault kind (NaN, +inf, -inf, 1e300) is "
     "injected at EVERY evaluation index, one at a time (cut_points_enumerated), and one world in 32 runs under a "
     "line-counting tracer with a cap of 5e6 cobyqa source lines between consecutive peer events (bounded progress)")
